@@ -21,7 +21,7 @@ from engine.absint import Evaluator, Obj, Raised
 from engine.grammar import simple_grammar_tables
 from engine.srcindex import need_function, need_const
 from .shared import models
-from .c04 import lexer_methods, mk_lexer_obj, tok
+from .c04 import lexer_methods, mk_lexer_obj, tok, hand
 
 SUFFIX = '@name'
 
@@ -202,9 +202,14 @@ def token_path(lm, methods, lexer, lexdata='/ x'):
         if state[0] == 'regex':
             return tok('REGEX', '/x/')
         return tok('DIV', '/')
+    # the ply stand-in keeps the line counter the feed left behind
+    prev_ply = lexer.lexer if lexer.has('lexer') else None
     lexer.lexer = Obj('PlyLexer', lexdata=lexdata, lexpos=0,
+                      lineno=prev_ply.lineno if isinstance(prev_ply, Obj)
+                      and prev_ply.has('lineno') else 1,
                       begin=('pyfunc', begin))
-    lexer.get_lexer_token = ('pyfunc', get_lexer_token)
+    lexer.get_lexer_token = ('pyfunc', lambda: hand(lexer,
+                                                    get_lexer_token()))
     ev = Evaluator(lm.module, 'Lexer', methods, {
         'AutoLexToken': lambda: Obj('AutoLexToken')})
     token_fn = methods.get('_token')
@@ -219,7 +224,8 @@ def token_path(lm, methods, lexer, lexdata='/ x'):
 def feed(ev, methods, lexer, types):
     for t in types:
         new = tok(*t) if isinstance(t, tuple) else tok(t)
-        lexer.get_lexer_token = ('pyfunc', lambda new=new: new)
+        lexer.get_lexer_token = ('pyfunc', lambda new=new, lexer=lexer:
+                                 hand(lexer, new))
         ev.call(methods['_get_update_token'], [], self_obj=lexer)
 
 
@@ -360,8 +366,16 @@ def relex_table(report, g, lm, pm):
             def backtracked(pos=1, calls=calls):
                 calls.append(pos)
                 return Obj('LexToken', type='REGEX', value='/x/')
-            lexer = Obj('Lexer', cur_token=tok(cur, lm.fixed[cur]),
+            # a consistent picture: the operator stands at offset 10 of
+            # the text, the lexer has just read past it
+            ctok = tok(cur, lm.fixed[cur])
+            ctok.lexpos = 10
+            lexer = Obj('Lexer', cur_token=ctok,
                         valid_prev_token=tok(prev),
+                        lexpos=10 + len(lm.fixed[cur]),
+                        lexer=Obj('PlyLexer', lexpos=10 + len(
+                            lm.fixed[cur]), lexdata=' ' * 10 + lm.fixed[
+                                cur] + 'x/', lineno=1),
                         auto_semi=('pyfunc', lambda t: None),
                         backtracked_token=('pyfunc', backtracked),
                         token=('pyfunc', lambda: None))
@@ -376,8 +390,7 @@ def relex_table(report, g, lm, pm):
                 'ECMASyntaxError': lambda *a: ('exc', a),
                 'AutoLexToken': lambda: Obj('AutoLexToken')})
             try:
-                ret, _ = ev.call(perr, [tok(cur, lm.fixed[cur])],
-                                 self_obj=selfobj)
+                ret, _ = ev.call(perr, [ctok], self_obj=selfobj)
             except Raised:
                 ret = None
             table[(cur, prev)] = (list(calls), ret)
@@ -385,10 +398,23 @@ def relex_table(report, g, lm, pm):
             # offending token when a line break precedes the `/` (the
             # lexer's current token is still the operator)
             del calls[:]
+            # the semicolon is the one the lexer's own _create_semi_token
+            # makes for the operator token
+            lmethods = lexer_methods(lm)
+            semi = None
+            if '_create_semi_token' in lmethods:
+                evs = Evaluator(lm.module, 'Lexer', lmethods, {
+                    'AutoLexToken': lambda: Obj('AutoLexToken')})
+                try:
+                    semi, _ = evs.call(lmethods['_create_semi_token'],
+                                       [ctok], self_obj=Obj('Lexer'))
+                except Raised:
+                    semi = None
+            if not isinstance(semi, Obj):
+                semi = Obj('AutoLexToken', type='AUTOSEMI', value=';',
+                           lineno=1, lexpos=10, colno=0)
             try:
-                ret, _ = ev.call(perr, [Obj(
-                    'AutoLexToken', type='AUTOSEMI', value=';', lineno=1,
-                    lexpos=0, colno=0)], self_obj=selfobj)
+                ret, _ = ev.call(perr, [semi], self_obj=selfobj)
             except Raised:
                 ret = None
             table[(cur, prev, 'AUTOSEMI')] = (list(calls), ret)
